@@ -242,7 +242,7 @@ func ruleTimeoutNonNeg(c *RC) *RuleResult {
 	n := 0
 	for _, w := range ws {
 		for _, s := range c.A.callers[w] {
-			for _, sn := range s.Snaps {
+			for _, sn := range c.preciseSnaps(s) {
 				if len(sn.Args) == 0 {
 					continue
 				}
@@ -348,7 +348,7 @@ func ruleAnswer(c *RC) *RuleResult {
 	r := &RuleResult{Rule: "M-ANSWER", Kind: "MUST", Doc: "transaction recorder: all transactions present ∧ backup ∧ ¬watch-only ⇒ PrepareResponse sent, or the verifier returned false (which must send a ChangeView)"}
 	rec := c.txRecorder()
 	resp := c.senderOf("PrepareResponseType")
-	ver := c.verifierFuncs()
+	ver := c.topVerifiers()
 	cvs := c.senderOf("ChangeViewType")
 	if rec == nil || len(resp) == 0 || len(ver) == 0 || len(cvs) == 0 {
 		r.unresolved("transaction recorder / response sender / verifier / ChangeView sender")
@@ -583,7 +583,13 @@ func ruleRequestTx(c *RC) *RuleResult {
 					okk = true
 				}
 			}
-			elem := len(sn.Val.Args) == 2 && sn.Val.Args[1].K == KElem && strings.Contains(sn.Val.Args[1].S, "ctx.TransactionHashes")
+			elem := false
+			if len(sn.Val.Args) == 2 {
+				a := sn.Val.Args[1]
+				// the ranged element, or the table indexed by its own range key
+				elem = a.K == KElem && strings.Contains(a.S, "ctx.TransactionHashes") ||
+					a.K == KIndex && a.Args[0].S == "ctx.TransactionHashes" && a.Args[1].K == KLocal && strings.HasPrefix(a.Args[1].Name, "rangekey:") && strings.HasSuffix(a.Args[1].Name, ":ctx.TransactionHashes")
+			}
 			if okk && elem {
 				r.ok(s.Fn.Name + ": hash appended to MissingTransactions only when GetTx returned nil, for the ranged proposal hash")
 			} else {
